@@ -3,19 +3,23 @@
             semantics; params : Gen.ClientSubParams.sub_params, read off client.go / client_sub.go on every run
             (channel capacities; whether each signalling site can block).
    The full statement has two halves: (a) no call blocks forever / no deadlock, (b) the publish loop does not stop
-   while there are subscriptions.  (a) is PROVED for every program, script and schedule (after the `fix:` that made
-   the signals non-blocking; the blocking variant is refuted below as documentation of the fixed defect).
-   (b) is REFUTED: a pause and a resume signal that are both pending are taken in arbitrary order by the loop's
-   `select`, so the resume can be consumed first and the loop then parks with an active subscription (known finding). *)
+   while there are subscriptions.  Both are PROVED for the code as it is today, for any number of threads and every
+   schedule: (a) since the `fix:` that made the signals non-blocking, (b) since the `fix:` that lets a consumed resume
+   signal win over pause signals and sends Subscribe's resume signal after the registration.  The two defects are
+   documented by C27_unfixed_code_deadlocks and C27_refuted_before_fix_lost_resume. *)
 From Coq Require Import List Bool Arith.
 From Opcua Require Import Model.ClientSub Proofs.ClientSubProofs Gen.ClientSubParams.
 Import ListNotations.
 Open Scope list_scope.
 Open Scope nat_scope.
 
+(* (a) for every program (API calls and the monitor's signalling), (b) for programs of Subscribe / ForgetSubscription
+   (Cancel) calls and publish scripts without publish errors: a publish error and the monitor's pause park the loop on
+   purpose until the reconnect resumes it *)
 Definition C27_statement : Prop :=
-  forall prog scr s, reachable sub_params (init scr prog) s ->
-    deadlocked sub_params s = false /\ loop_starved sub_params s = false.
+  (forall prog scr s, reachable sub_params (init sub_params scr prog) s -> deadlocked sub_params s = false) /\
+  (forall prog scr s, forallb api_op prog = true -> error_free scr = true ->
+     reachable sub_params (init sub_params scr prog) s -> loop_starved sub_params s = false).
 
 Lemma run_reachable_from P s0 : forall sched s1 s, reachable P s0 s1 -> run P s1 sched = Some s -> reachable P s0 s.
 Proof.
@@ -40,8 +44,8 @@ Proof. reflexivity. Qed.
    script, any interleaving. Every unfinished call can take a step, or waits for subMux whose holder can take a step;
    the loop's own pause signal never blocks; when the loop wants subMux it is free or its holder can step; hence no
    deadlock. *)
-Theorem C27_partial_no_call_blocks_forever :
-  forall prog scr s, reachable sub_params (init scr prog) s ->
+Theorem C27_no_call_blocks_forever :
+  forall prog scr s, reachable sub_params (init sub_params scr prog) s ->
     (forall i p, nth_error (threads s) i = Some p -> p <> Done ->
        can_step_api sub_params s i = true \/ exists j, mux s = Some j /\ j <> i /\ can_step_api sub_params s j = true)
     /\ (loop s = LWantPause -> step_loop sub_params s SelfPause <> None)
@@ -57,44 +61,74 @@ Proof.
   - apply not_deadlocked; assumption.
 Qed.
 
-(* (b) refuted: Subscribe 1; while its publish request is outstanding Forget 1 (pause pending) and Subscribe 2 (resume
-   pending); the answer arrives; the loop takes the resume first ("ignore since not paused"), then the pause. *)
+(* the protocol side conditions on the generated parameters: non-blocking signals, Subscribe signals after registering,
+   a consumed resume wins, resumech has room for a signal *)
+Theorem C27_protocol_as_proved : fixed_protocol sub_params = true.
+Proof. vm_compute. reflexivity. Qed.
+
+(* (b), full quantifier over the API programs: when every Subscribe / ForgetSubscription call has returned and the
+   client holds a subscription, the publish loop is not parked *)
+Theorem C27_no_lost_resume :
+  forall prog scr s, forallb api_op prog = true -> error_free scr = true ->
+    reachable sub_params (init sub_params scr prog) s -> loop_starved sub_params s = false.
+Proof. intros prog scr s Hp Hs Hr. eapply no_lost_resume; [exact C27_protocol_as_proved | exact Hp | exact Hs | exact Hr]. Qed.
+
+Theorem C27_no_deadlock_no_lost_resume : C27_statement.
+Proof.
+  split.
+  - intros prog scr s Hr. apply not_deadlocked; [exact C27_signals_do_not_block|]. eapply inv_reachable; [apply inv_init | exact Hr].
+  - exact C27_no_lost_resume.
+Qed.
+
+Example C27_hypotheses_satisfiable :
+  forallb api_op [OpSubscribe 1; OpForget 1; OpSubscribe 2] = true /\ error_free [POk; PTimeout] = true.
+Proof. split; reflexivity. Qed.
+
+(* the defect that was fixed: Subscribe 1; while its publish request is outstanding Forget 1 (pause pending) and
+   Subscribe 2 (resume pending); the answer arrives; the loop takes the resume first ("ignore since not paused"), then
+   the pause, and parks with subscription 2 registered *)
+Definition old_signalling : params :=
+  {| cap_pause := 2; cap_resume := 2; pause_blocks := false; resume_blocks := false; subscribe_blocks := false;
+     subscribe_signals_after := false; resume_wins := false |}.
 Definition lost_resume_prog := [OpSubscribe 1; OpForget 1; OpSubscribe 2].
 Definition lost_resume_sched : list action :=
   [ALoop TakePause; AApi 0; AApi 0; ALoop TakeResume; ALoop Default;
    AApi 1; AApi 1; AApi 1; AApi 2; AApi 2; ALoop Answer; ALoop Handle; ALoop TakeResume; ALoop TakePause].
 
-Theorem C27_refuted_lost_resume : ~ C27_statement.
+Theorem C27_refuted_before_fix_lost_resume :
+  exists s, reachable old_signalling (init old_signalling [POk] lost_resume_prog) s /\ loop_starved old_signalling s = true.
 Proof.
-  intros H.
-  destruct (run sub_params (init [POk] lost_resume_prog) lost_resume_sched) as [s|] eqn:E; [|vm_compute in E; discriminate].
-  destruct (H lost_resume_prog [POk] s (run_reachable _ _ _ _ E)) as [_ Hs].
-  vm_compute in E. inversion E; subst. vm_compute in Hs. discriminate.
+  destruct (run old_signalling (init old_signalling [POk] lost_resume_prog) lost_resume_sched) as [s|] eqn:E; [|vm_compute in E; discriminate].
+  exists s. split; [eapply run_reachable; exact E|]. vm_compute in E. inversion E; subst. vm_compute. reflexivity.
 Qed.
 
 (* the defect that was fixed (DESIGN row 20): with blocking signals, three Forgets of the only subscription while the
    publish answer is outstanding deadlock the third Forget (holding subMux) and the loop *)
 Definition blocking_params : params :=
-  {| cap_pause := 2; cap_resume := 2; pause_blocks := true; resume_blocks := true; subscribe_blocks := true |}.
+  {| cap_pause := 2; cap_resume := 2; pause_blocks := true; resume_blocks := true; subscribe_blocks := true;
+     subscribe_signals_after := false; resume_wins := false |}.
 Definition triple_cancel_prog := [OpSubscribe 1; OpForget 1; OpForget 1; OpForget 1].
 Definition triple_cancel_sched : list action :=
   [ALoop TakePause; AApi 0; AApi 0; ALoop TakeResume; ALoop Default;
    AApi 1; AApi 1; AApi 1; AApi 2; AApi 2; AApi 2; AApi 3; ALoop Answer].
 
 Theorem C27_unfixed_code_deadlocks :
-  exists s, reachable blocking_params (init [POk] triple_cancel_prog) s /\ deadlocked blocking_params s = true.
+  exists s, reachable blocking_params (init blocking_params [POk] triple_cancel_prog) s /\ deadlocked blocking_params s = true.
 Proof.
-  destruct (run blocking_params (init [POk] triple_cancel_prog) triple_cancel_sched) as [s|] eqn:E; [|vm_compute in E; discriminate].
+  destruct (run blocking_params (init blocking_params [POk] triple_cancel_prog) triple_cancel_sched) as [s|] eqn:E; [|vm_compute in E; discriminate].
   exists s. split; [eapply run_reachable; exact E|]. vm_compute in E. inversion E; subst. vm_compute. reflexivity.
 Qed.
 
 (* the same program on the code as it is today ends with every call returned, on every schedule *)
 Example C27_triple_cancel_terminals :
-  forallb (fun t => forallb (fun b => b) (t_done t)) (terminals sub_params 20000 (init [POk] triple_cancel_prog)) = true.
+  forallb (fun t => forallb (fun b => b) (t_done t)) (terminals sub_params 20000 (init sub_params [POk] triple_cancel_prog)) = true.
 Proof. vm_compute. reflexivity. Qed.
 
 Print Assumptions C27_signals_do_not_block.
 Print Assumptions C27_lock_sections_flat.
-Print Assumptions C27_partial_no_call_blocks_forever.
-Print Assumptions C27_refuted_lost_resume.
+Print Assumptions C27_no_call_blocks_forever.
+Print Assumptions C27_protocol_as_proved.
+Print Assumptions C27_no_lost_resume.
+Print Assumptions C27_no_deadlock_no_lost_resume.
+Print Assumptions C27_refuted_before_fix_lost_resume.
 Print Assumptions C27_unfixed_code_deadlocks.
